@@ -111,6 +111,7 @@ struct ThreadCtx {
     long throws_done = 0;
     uint32_t throw_mask = 0;
     bool throw_std_flavour = false;
+    bool throw_twice = false;
 };
 
 struct Injected {  // the exception thrown by the fault engine
@@ -694,16 +695,19 @@ inline void maybe_throw(int site)
     ThreadCtx& c = ctx();
     if (!((c.throw_mask >> site) & 1u)) return;
     long n = ++c.throw_calls;
-    if (c.throw_at > 0 && n == c.throw_at) {
+    if (c.throw_at > 0 && (n == c.throw_at || (c.throw_twice && n == c.throw_at + 1))) {
         c.throws_done++;
         if (c.throw_std_flavour) throw InjectedStd(site, n);
         throw Injected{site, n};
     }
 }
-inline void fault_arm(uint32_t site_mask, long k, bool std_flavour = false)
+// twice: the enabled site invoked next after the one that threw throws as well (a double fault: user code that runs inside the
+// library's own roll-back fails too)
+inline void fault_arm(uint32_t site_mask, long k, bool std_flavour = false, bool twice = false)
 {
     ThreadCtx& c = ctx();
     c.throw_std_flavour = std_flavour;
+    c.throw_twice = twice;
     c.throw_mask = site_mask;
     c.throw_calls = 0;
     c.throws_done = 0;
